@@ -30,7 +30,14 @@ fn next_float(_: ()) -> IO<f64> {
 }
 
 fn gen_int_range(low: VmInt, high: VmInt) -> IO<VmInt> {
-    IO::Value(rand::rng().random_range(low..high))
+    if low < high {
+        IO::Value(rand::rng().random_range(low..high))
+    } else {
+        IO::Exception(format!(
+            "cannot generate a number in the empty range {}..{}",
+            low, high
+        ))
+    }
 }
 
 type RngNext<G> = record_type! {
